@@ -198,8 +198,7 @@ def run(replay=None, pid="C06"):
     c.samples = vlib.sample_cases(cases, c.rng, 3)
     for s in c.samples:
         s["ops"] = s["ops"][:10]
-    groups = c.go_run("./internal/ackhandler", "TestVerifC06", cases, {"internal/ackhandler/zz_verif_c06_test.go": "ackhandler/c06_test.go",
-                                                                        "internal/ackhandler/zz_verif_c07_test.go": "ackhandler/c07_test.go"})
+    groups = c.go_run("./internal/ackhandler", "TestVerifC06", cases, vlib.pkg_overlay("internal/ackhandler", "ackhandler"))
     jobs = [{"label": g, "files": files, "constants": constants(g), "invariants": INV} for g, files in groups.items()]
     viols = c.validate_many(c.spec("LossRecovery_Trace.tla"), jobs, timeout=2400)
     for v in viols:
